@@ -68,6 +68,8 @@ STR_PLAIN = ["'a'", "'abc def'", '"x"', '"a b"', "'1'", "'a)b'", "'(('", "'-- x'
              "'say \"hi\"'", "'multi\nline'", '""', "'  pad  '", "'é中'", "'a\\nb'", "'2020-01-01'", "'%a_'"]
 STR_REWR = ["''", "'it''s'", "'a\\'b'", "'say \\\"hi\\\"'", '"a\\"b"', '"it\\\'s"', "''''", "'a\\\\'", "'''a'", "'a'''",
             "'x''y''z'", '"\\""']
+STR_MULTI = ["'Dear customer,\nthank you'", "'a\nb'", "'l1\n\nl3'", "'\nlead'", "'trail\n'", "'a\r\nb'", "'x\n  y\n z'",
+             '"a\nb"', '"two\n\nlines"', '"\n"', "'\n'", "'-- no\ncomment'", "'( \n'"]
 VARL = ['@v', '@@sys', '@a.b', "@'a b'", '@`x`', '@"y"', '@@`g`', '@$v', '@@session.x']
 OPS = ['=', '<>', '!=', '<', '<=', '>', '>=', '+', '-', '*', '/', '%', '||', ',', '.', ';', ':', '::', '->', '->>', '?',
        '{', '}', '[', ']', '~', '!~']
@@ -160,7 +162,40 @@ def join(rng, lexs, calm=False):
     return ''.join(parts)
 
 
+def join_tight(rng, lexs):
+    """multi-line literals followed / preceded with and without blanks, at line starts and ends"""
+    parts = []
+    for i, l in enumerate(lexs):
+        if i:
+            near = '\n' in l or '\n' in lexs[i - 1]
+            s = rng.choice(['', '', '', ' ', '\n', '  ', ' \n', '\n  '] if near else [' ', ' ', ' ', '', '\n', '  '])
+            if s == '' and (parts[-1][-1:].isalnum() or parts[-1][-1:] in '_$') and (l[:1].isalnum() or l[:1] in '_$'):
+                s = ' '
+            parts.append(s)
+        parts.append(l)
+    return ''.join(parts)
+
+
+def gen_mlstr(rng):
+    lexs = select(rng, 0.0) if rng.random() < 0.7 else soup(rng, rng.randint(2, 15), 0, 0.0)
+    idx = [i for i, l in enumerate(lexs) if l[:1] in '\'"' or l in IDS or l in NUMS]
+    rng.shuffle(idx)
+    for i in idx[:rng.randint(1, 3)]:
+        lexs[i] = rng.choice(STR_MULTI)
+    if not idx:
+        lexs.insert(rng.randint(1, len(lexs)), rng.choice(STR_MULTI))
+    if rng.random() < 0.5:   # literal glued to an operator / identifier / keyword on both sides
+        k = rng.randrange(len(lexs) + 1)
+        lexs[k:k] = [rng.choice(['||', '=', '+', ',', 'and', 'x', 'like', 'in', '(']), rng.choice(STR_MULTI),
+                     rng.choice(['||', 'AS', 'and', 'name', '+', ',', 'from', ')', 'is not', 'c1'])]
+        if lexs[k] == '(' or lexs[k + 2] == ')':
+            lexs[k], lexs[k + 2] = '(', ')'
+    return 'mlstr', join_tight(rng, lexs[:40])
+
+
 def gen_inner(rng, corpus_sel):
+    if rng.random() < 0.2:
+        return gen_mlstr(rng)
     mode = rng.choice(['soup', 'select', 'select', 'corpus'])
     p_rewr = rng.choice([0.0, 0.0, 0.0, 0.15, 0.4])
     if mode == 'soup':
@@ -468,7 +503,11 @@ def corpus_selects(R):
 PADS = [('', ''), ('', ''), (' ', ' '), ('\n  ', '\n'), ('\n', ''), (' /* lead */ ', ' '), ('', ' -- tail\n'), ('\t', '\r\n')]
 PREFIX = ['', '', '', '\n', '  ', '\n\n   ', '/* head */ ', '-- head\n']
 
-FIXED = ["select a, b from t where d > '2020-01-01' and (s like '%a' or n in (1, 2.50))", "select * from t where name = ''", "select 'it''s'", "select @v, @@sys", 'select "a\\"b"',
+FIXED = ["select 'Dear customer,\nthank you'||name AS greeting from t", 'select "a\nb"||x as y, 2 from t',
+         "select 'a\n\nb'+1 c, d from t", "select x from t where a='l1\nl2'and b = 1 or c like'%\n%'or d in('p\nq',2)x",
+         "'x\ny'z w", "select\n'a\nb'\n||c d\nfrom t", "select 'a\nb' ,'c\nd'||'e\nf'g h from t", 'select "a\nb"from t where "c\n"=1 and e',
+         "select 'trail\n'\n,'\nlead'x y\nfrom t", "select f('a\nb')g h, ('c\n')i j",
+         "select a, b from t where d > '2020-01-01' and (s like '%a' or n in (1, 2.50))", "select * from t where name = ''", "select 'it''s'", "select @v, @@sys", 'select "a\\"b"',
          "select a\n\n   from t -- c\nwhere x /* a\nb */ = 1", "select 'a\nb' , c\n from t", 'select f() , (1+2)',
          'select x not /*c*/ in (1)', 'select 1e5, 1.50, 0x1, 007', 'select `a b`', 'select\t1', "select '\\''", 'select ?',
          'select x is\nnot null, b\nfrom t', 'a', '(a)', 'f()', 'a () (b) ((c))', "select 'x' -- ''\n, 2",
